@@ -61,6 +61,7 @@ pub fn spec() -> PropSpec {
                 let n = if ctx.tier == Tier::Thorough { 30 } else { 12 };
                 (gen::foreign_ops(n, 8, 3000), gen::partition()).prop_map(|(ops, partition)| Case { ops, partition }).boxed()
             }, 300_000, 6_000_000, eval),
+            PropCheck::new("foreign-stream-kilobyte-chunks", |_| (gen::foreign_ops_large(6), gen::partition_large()).prop_map(|(ops, partition)| Case { ops, partition }).boxed(), 6_000, 200_000, eval),
             crate::targets::corpus_check(&["foreign_stream"]),
         ],
     }
